@@ -453,7 +453,8 @@ class Run:
             label = " or ".join(gd.label for gd in group)
             if not cut:
                 ok = False
-                self.viol(rule, "guard-missing:%s" % label, "no deciding branch on guard `%s` found in %s" % (label, body.path), body, body.lines[0])
+                why = "; ".join(str(getattr(gd, "via")) for gd in group if getattr(gd, "via", None))
+                self.viol(rule, "guard-missing:%s" % label, "no deciding branch on guard `%s` found in %s%s" % (label, body.path, " (%s)" % why if why else ""), body, body.lines[0])
                 details.append({"guard": label, "sites": nsites, "accept_edges": 0})
                 continue
             reach = g.reach(starts, cut=cut)
@@ -496,7 +497,8 @@ class Run:
             details.append({"guard": gd.label, "sites": n, "reject_edges": len(rej)})
             if not rej or not acc:
                 ok = False
-                self.viol(rule, "guard-missing:%s" % gd.label, "no deciding branch on guard `%s` found in %s" % (gd.label, body.path), body, body.lines[0])
+                why = str(getattr(gd, "via", "") or "")
+                self.viol(rule, "guard-missing:%s" % gd.label, "no deciding branch on guard `%s` found in %s%s" % (gd.label, body.path, " (%s)" % why if why else ""), body, body.lines[0])
                 continue
             for (s, d) in rej:
                 reach = g.reach((d,), cut=acc)
@@ -865,3 +867,33 @@ def _forall_compare(self, rule, fn_body, elem_src, other_src_parent, sink, descr
 
 
 Run.forall_compare = _forall_compare
+
+
+class OrWrapperGuard:
+    """K4w: `inner` holds either directly in the body, or through a call to `callee` whose own accepting returns
+    (`ret_kind`, e.g. "Ok") are all cut by `inner` inside the callee (one level of wrapper summary)."""
+
+    def __init__(self, F, inner, callee, steps=("Ok",), ret_kind="Ok"):
+        self.F, self.inner, self.callee, self.steps, self.ret_kind = F, inner, callee, steps, ret_kind
+        self.label = inner.label
+        self.via = None
+
+    def edges(self, body):
+        n, acc, rej = self.inner.edges(body)
+        if acc:
+            self.via = "direct"
+            return n, acc, rej
+        cb = self.F.body(self.callee)
+        if cb is None:
+            return 0, set(), set()
+        prep(cb)
+        g = cfg_of(cb)
+        n2, acc2, rej2 = self.inner.edges(cb)
+        rets = set(RetSink(self.ret_kind).blocks(cb))
+        # also returns that forward another call's verdict (`_0 = call(..)`) count as accepting returns
+        fwd = {b["id"] for b in cb.blocks if b["term"]["k"] == "call" and b["term"]["d"] == [0] and not b["cleanup"]}
+        if not acc2 or ((rets | fwd) & g.reach((0,), cut=acc2)):
+            self.via = "wrapper %s does not enforce it on every accepting return" % self.callee.split("::")[-1]
+            return n2, set(), set()
+        self.via = "wrapper " + self.callee.split("::")[-1]
+        return CallGuard([self.callee], self.steps, self.label).edges(body)
